@@ -327,6 +327,17 @@ static int STRUCTURE##_control_bin_input(struct upipe *upipe,               \
  */                                                                         \
 static void STRUCTURE##_clean_bin_input(struct upipe *upipe)                \
 {                                                                           \
+    struct STRUCTURE *s = STRUCTURE##_from_upipe(upipe);                    \
+    struct uchain *uchain, *uchain_tmp;                                     \
+    /* free the proxies of upstream requests that are still registered */   \
+    ulist_delete_foreach (&s->REQUEST_LIST, uchain, uchain_tmp) {           \
+        struct urequest *proxy = urequest_from_uchain(uchain);              \
+        if (proxy->urequest_provide != STRUCTURE##_provide_bin_proxy)       \
+            continue;                                                       \
+        STRUCTURE##_unregister_bin_request(upipe, proxy);                   \
+        urequest_clean(proxy);                                              \
+        urequest_free(proxy);                                               \
+    }                                                                       \
     STRUCTURE##_clean_##FIRST_INNER(upipe);                                 \
 }
 
